@@ -376,7 +376,7 @@ pub fn c08(a: &Analysis) -> Vec<Violation> {
             })
             .collect();
         let got: Vec<(Kind, u16, &WirePkt)> = a.acks(c).into_iter().map(|w| (w.pkt.kind(), w.pkt.pid().unwrap(), w)).collect();
-        let complete = conn.run_returned.is_none() && a.ctx_gone.is_none() && conn.consumed == conn.inbound_len && conn.read_end_seen.is_none() && conn.write_fault_seen.is_none();
+        let complete = conn.run_returned.is_none() && a.ctx_gone.is_none() && conn.consumed == conn.inbound_len && conn.read_end_seen.is_none() && conn.write_fault_seen.is_none() && !conn.write_blocked_at_end;
         for k in 0..got.len().max(expected.len()) {
             match (expected.get(k), got.get(k)) {
                 (Some(e), Some(g)) => {
@@ -812,6 +812,416 @@ pub fn wire_wellformed(a: &Analysis, prop: &'static str) -> Vec<Violation> {
             let pkt = a.raw_wire[c].get(*off).map(|b| rc::Kind::from_nibble(b >> 4).map(|k| k.name()).unwrap_or("RESERVED")).unwrap_or("?");
             let why_short: String = why.chars().take(60).collect();
             out.push(v(prop, format!("{prop}/malformed/{pkt}/{why_short}"), format!("connection {c} offset {off}: {why}")));
+        }
+    }
+    out
+}
+
+// ---------------------------------------------------------------------------------------
+// C13 — termination causes
+
+#[derive(Clone, Debug, PartialEq, Eq)]
+pub enum Cause {
+    UserDisconnect(usize),
+    ServerDisconnect(usize),
+    ReadEnd,
+    WriteFault,
+    HandlesGone,
+    Undecodable,
+}
+
+/// Terminating causes that occurred on connection `c` while `run()` was serving.
+pub fn causes(a: &Analysis, sc: &Scenario, c: usize) -> Vec<Cause> {
+    let mut out = Vec::new();
+    let conn = &a.conns[c];
+    let Some(rs) = conn.run_started else { return out };
+    let _ = rs;
+    let last_conn = c + 1 == a.conns.len();
+    if last_conn {
+        for op in a.ops.values() {
+            if matches!(op.spec, OpSpec::Disconnect(_)) && op.first_poll.is_some() && !op.first_poll_ready {
+                out.push(Cause::UserDisconnect(op.idx));
+            }
+        }
+    }
+    for i in &a.inbound {
+        if i.p.conn != c {
+            continue;
+        }
+        match &i.p.pkt {
+            Some(Packet::Disconnect(_)) if i.avail_seq.is_some() => out.push(Cause::ServerDisconnect(i.p.idx)),
+            None if i.avail_seq.is_some() || conn.consumed > i.p.start => out.push(Cause::Undecodable),
+            _ => {}
+        }
+    }
+    if conn.read_end_seen.is_some() {
+        out.push(Cause::ReadEnd);
+    }
+    if conn.write_fault_seen.is_some() {
+        out.push(Cause::WriteFault);
+    }
+    if last_conn {
+        let handles = sc.config.handles.max(1);
+        let dropped: BTreeSet<usize> = sc.steps.iter().filter_map(|s| if let Step::DropHandle(k) = s { Some(*k) } else { None }).collect();
+        let all_dropped = (0..handles).all(|k| dropped.contains(&k));
+        let no_live_ops = !a.live_at_end.iter().any(|t| matches!(t, TaskRef::Op(_)));
+        if all_dropped && no_live_ops {
+            out.push(Cause::HandlesGone);
+        }
+    }
+    out
+}
+
+fn disconnected_matches(e: &ErrDigest, p: &rc::ReasonProps) -> Option<&'static str> {
+    if e.variant != "Disconnected" {
+        return Some("variant");
+    }
+    if e.reason != Some(p.reason) {
+        return Some("reason");
+    }
+    if e.reason_string.as_deref() != p.props.str(pid::REASON_STRING) {
+        return Some("reason_string");
+    }
+    if e.server_reference.as_deref() != p.props.str(pid::SERVER_REFERENCE) {
+        return Some("server_reference");
+    }
+    if e.user != p.props.user() {
+        return Some("user_properties");
+    }
+    if !e.flaws.is_empty() {
+        return Some("user_properties_accessors");
+    }
+    None
+}
+
+pub fn c13(a: &Analysis, sc: &Scenario) -> Vec<Violation> {
+    let mut out = Vec::new();
+    for (c, conn) in a.conns.iter().enumerate() {
+        // --- connect()/authorize() outcome
+        let first_in: Vec<&InView> = a.inbound.iter().filter(|i| i.p.conn == c).collect();
+        let answered = first_in.first().filter(|i| i.avail_seq.is_some());
+        let ctx_lost = a.ctx_dropped.is_some() || a.panics.iter().any(|p| p.1 == TaskRef::Ctx);
+        match (&conn.connect_returned, answered.and_then(|i| i.p.pkt.as_ref())) {
+            (Some((_, got)), Some(Packet::Connack(k))) => {
+                let want_ok = k.reason < 0x80;
+                match got {
+                    ConnectOutcome::Connack(d) => {
+                        if !want_ok {
+                            out.push(v("C13", "C13/connect-result/ConnectError/ConnectRsp", format!("CONNACK reason 0x{:02x} returned as success", k.reason)));
+                        } else if *d != connack_expected(k) {
+                            out.push(v("C13", "C13/connect-result/ConnectRsp/content", format!("got {:?}", d)));
+                        }
+                    }
+                    ConnectOutcome::Err(e) if e.variant == "ConnectError" => {
+                        if want_ok {
+                            out.push(v("C13", "C13/connect-result/ConnectRsp/ConnectError", format!("CONNACK reason 0x{:02x} returned as error", k.reason)));
+                        } else if e.reason != Some(k.reason) || e.reason_string.as_deref() != k.props.str(pid::REASON_STRING) || e.user != k.props.user() || e.server_reference.as_deref() != k.props.str(pid::SERVER_REFERENCE) {
+                            out.push(v("C13", "C13/connect-result/ConnectError/content", format!("got {:?}", e)));
+                        }
+                    }
+                    other => out.push(v("C13", format!("C13/connect-result/{}/other", if want_ok { "ConnectRsp" } else { "ConnectError" }), format!("got {:?}", other))),
+                }
+            }
+            (Some((_, got)), Some(Packet::Auth(p))) if p.reason < 0x80 => match got {
+                ConnectOutcome::Auth(d) => {
+                    if d.reason != p.reason || d.reason_string.as_deref() != p.props.str(pid::REASON_STRING) || d.authentication_method.as_deref() != p.props.str(pid::AUTH_METHOD) || d.authentication_data.as_deref() != p.props.bin(pid::AUTH_DATA) || d.user != p.props.user() || !d.flaws.is_empty() {
+                        out.push(v("C13", "C13/connect-result/AuthRsp/content", format!("got {:?}", d)));
+                    }
+                }
+                other => out.push(v("C13", "C13/connect-result/AuthRsp/other", format!("AUTH challenge gave {:?}", other))),
+            },
+            (Some((_, got)), None) if first_in.iter().all(|i| i.p.pkt.is_some()) && conn.read_end_seen.is_some() && conn.consumed < first_in.first().map(|i| i.p.end).unwrap_or(1) => {
+                if !matches!(got, ConnectOutcome::Err(e) if e.variant == "SocketClosed") {
+                    out.push(v("C13", "C13/connect-result/SocketClosed/other", format!("transport ended before any response, got {:?}", got)));
+                }
+            }
+            (None, _) if conn.connect_started.is_some() && !ctx_lost => {
+                let got_whole_response = answered.map(|i| conn.consumed >= i.p.end).unwrap_or(false);
+                if got_whole_response && answered.map(|i| i.p.pkt.is_some()).unwrap_or(false) || conn.read_end_seen.is_some() {
+                    out.push(v("C13", "C13/connect-result/pending", format!("connection {c}: connect() still pending although its response or the end of the transport was consumed")));
+                }
+            }
+            _ => {}
+        }
+        // --- run() outcome
+        if conn.run_started.is_none() {
+            continue;
+        }
+        let cs = causes(a, sc, c);
+        let got = conn.run_returned.as_ref();
+        if cs.is_empty() {
+            if let Some((seq, res)) = got {
+                out.push(v("C13", "C13/run-returned-without-cause", format!("connection {c}: run() returned {:?} at {seq}", res.as_ref().map_err(|e| (&e.variant, &e.text)))));
+            }
+            continue;
+        }
+        if ctx_lost {
+            continue;
+        }
+        let cause_name = |x: &Cause| match x {
+            Cause::UserDisconnect(_) => "user-disconnect".to_string(),
+            Cause::ServerDisconnect(i) => match &a.inbound[*i].p.pkt {
+                Some(Packet::Disconnect(p)) if p.reason == 0 => "server-disconnect-0".into(),
+                _ => "server-disconnect".into(),
+            },
+            Cause::ReadEnd => "read-end".into(),
+            Cause::WriteFault => "write-fault".into(),
+            Cause::HandlesGone => "handles-dropped".into(),
+            Cause::Undecodable => "undecodable-input".into(),
+        };
+        let Some((rseq, res)) = got else {
+            // a cause that the client has certainly seen and yet run() is pending
+            let certain = cs.iter().find(|x| match x {
+                Cause::UserDisconnect(_) => !conn.write_blocked_at_end,
+                Cause::ServerDisconnect(i) => conn.consumed >= a.inbound[*i].p.end,
+                Cause::ReadEnd => true,
+                Cause::WriteFault => true,
+                Cause::HandlesGone => !conn.write_blocked_at_end,
+                Cause::Undecodable => conn.consumed == conn.inbound_len,
+            });
+            if let Some(x) = certain {
+                out.push(v("C13", format!("C13/run-not-returned/{}", cause_name(x)), format!("connection {c}: cause {:?} occurred, run() is still pending", x)));
+            }
+            continue;
+        };
+        // acceptable results: the result of any of the causes present
+        let mut ok = false;
+        let mut why = Vec::new();
+        for x in &cs {
+            let verdict: Result<(), String> = match x {
+                Cause::UserDisconnect(_) => {
+                    if res.is_ok() { Ok(()) } else { Err(format!("expected Ok(()), got {:?}", res)) }
+                }
+                Cause::ServerDisconnect(i) if matches!(&a.inbound[*i].p.pkt, Some(Packet::Disconnect(p)) if p.reason == 0) => {
+                    if res.is_ok() { Ok(()) } else { Err(format!("expected Ok(()), got {:?}", res)) }
+                }
+                Cause::ServerDisconnect(i) => match (&a.inbound[*i].p.pkt, res) {
+                    (Some(Packet::Disconnect(p)), Err(e)) => match disconnected_matches(e, p) {
+                        None => Ok(()),
+                        Some(f) => Err(format!("Disconnected.{f} differs: {:?}", e)),
+                    },
+                    _ => Err(format!("expected Disconnected, got {:?}", res)),
+                },
+                Cause::ReadEnd | Cause::WriteFault => match res {
+                    Err(e) if e.variant == "SocketClosed" => Ok(()),
+                    _ => Err(format!("expected SocketClosed, got {:?}", res)),
+                },
+                Cause::HandlesGone => match res {
+                    Err(e) if e.variant == "HandleClosed" => Ok(()),
+                    _ => Err(format!("expected HandleClosed, got {:?}", res)),
+                },
+                Cause::Undecodable => match res {
+                    Err(_) => Ok(()),
+                    _ => Err("expected an error for undecodable input, got Ok(())".to_string()),
+                },
+            };
+            match verdict {
+                Ok(()) => ok = true,
+                Err(w) => why.push(w),
+            }
+        }
+        if !ok {
+            let got_name = match res {
+                Ok(()) => "Ok".to_string(),
+                Err(e) => e.variant.clone(),
+            };
+            out.push(v("C13", format!("C13/run-result/{}/{}", cause_name(&cs[0]), got_name), format!("connection {c}: {}", why.join("; "))));
+        }
+        // user DISCONNECT: fully written before run() returned, nothing after it
+        if cs.len() == 1 {
+            if let Cause::UserDisconnect(_) = &cs[0] {
+                let pkts: Vec<&WirePkt> = a.wire.iter().filter(|p| p.conn == c).collect();
+                match pkts.iter().position(|p| matches!(p.pkt, Packet::Disconnect(_))) {
+                    Some(pos) => {
+                        if pos + 1 != pkts.len() || conn.partial_tail > 0 {
+                            out.push(v("C13", "C13/bytes-after-disconnect", format!("connection {c}: {} packet(s) / {} stray byte(s) written after the DISCONNECT", pkts.len() - pos - 1, conn.partial_tail)));
+                        }
+                        if pkts[pos].seq_last > *rseq {
+                            out.push(v("C13", "C13/run-result/user-disconnect/early", "run() returned before the DISCONNECT was fully written"));
+                        }
+                    }
+                    None => {
+                        if res.is_ok() {
+                            out.push(v("C13", "C13/run-result/user-disconnect/not-written", "run() returned Ok(()) but no DISCONNECT is on the wire"));
+                        }
+                    }
+                }
+            }
+        }
+    }
+    for p in real_panics(a) {
+        if p.1 == TaskRef::Ctx {
+            out.push(v("C13", format!("C13/panic/{}", panic_site(&p.2)), format!("context task panicked: {}", p.2)));
+        }
+    }
+    out
+}
+
+// ---------------------------------------------------------------------------------------
+// C14 — nothing hangs once the context is gone
+
+fn op_phase(a: &Analysis, op: &OpView, at: usize) -> &'static str {
+    if op.first_poll.map(|f| f > at).unwrap_or(true) {
+        return "created-unpolled";
+    }
+    let on_wire = a.request_of(op.idx).iter().any(|p| p.seq_last < at);
+    if !on_wire {
+        return "queued-unsent";
+    }
+    if op.spec.publish_qos() == Some(2) {
+        let rec = a.acks_for(op.idx).into_iter().find(|i| matches!(i.p.ack_for, Some((_, AckKind::Pubrec))) && i.avail_seq.map(|s| s < at).unwrap_or(false));
+        if rec.is_some() {
+            return "between-qos2-phases";
+        }
+    }
+    "awaiting-ack"
+}
+
+pub fn c14(a: &Analysis, sc: &Scenario) -> Vec<Violation> {
+    let mut out = Vec::new();
+    let Some(gone) = a.ctx_gone else { return out };
+    // position of the DropContext step among Op steps: ops created afterwards
+    let mut late_ops = BTreeSet::new();
+    let mut seen_drop = false;
+    for s in &sc.steps {
+        match s {
+            Step::DropContext | Step::End => seen_drop = true,
+            Step::Op { id, .. } if seen_drop => {
+                late_ops.insert(*id);
+            }
+            _ => {}
+        }
+    }
+    for t in &a.live_at_end {
+        match t {
+            TaskRef::Op(i) => {
+                let op = &a.ops[i];
+                let phase = if late_ops.contains(i) { "started-after-drop" } else { op_phase(a, op, gone) };
+                out.push(v("C14", format!("C14/hang/{}/{}", op.spec.kind_name(), phase), format!("op {i} is still pending after the context was dropped at {gone}")));
+            }
+            TaskRef::Consumer(s) => out.push(v("C14", "C14/stream-not-ended", format!("stream {s} neither yields nor ends after the context was dropped"))),
+            TaskRef::Ctx => {}
+        }
+    }
+    for op in a.ops.values() {
+        let Some((rs, res)) = op.returned.first() else { continue };
+        if late_ops.contains(&op.idx) {
+            if res.err_variant() != Some("ContextExited") {
+                out.push(v("C14", "C14/wrong-error/started-after-drop", format!("op {} started after the drop returned {:?}", op.idx, res)));
+            } else if !op.first_poll_ready {
+                out.push(v("C14", "C14/hang/started-after-drop/not-immediate", format!("op {} did not fail on its first poll", op.idx)));
+            }
+            continue;
+        }
+        if *rs < gone {
+            continue;
+        }
+        if res.err_variant() == Some("ContextExited") || locally_refused(op) {
+            continue;
+        }
+        // a proper result after the drop is only possible if the context had completed it before
+        let completed_before = match op.spec.publish_qos() {
+            Some(0) => a.request_of(op.idx).iter().any(|p| p.seq_last < gone),
+            _ => match &op.spec {
+                OpSpec::Disconnect(_) => a.wire.iter().any(|p| matches!(p.pkt, Packet::Disconnect(_)) && p.seq_last < gone),
+                OpSpec::Ping => a.inbound.iter().any(|i| matches!(i.p.pkt, Some(Packet::Pingresp)) && i.avail_seq.map(|s| s < gone).unwrap_or(false)),
+                _ => final_ack(a, op).and_then(|i| i.avail_seq).map(|s| s < gone).unwrap_or(false),
+            },
+        };
+        if !completed_before {
+            out.push(v("C14", format!("C14/wrong-error/{}", op_phase(a, op, gone)), format!("op {} returned {:?} after the context was dropped without having been completed", op.idx, res)));
+        }
+    }
+    // streams: items delivered before the drop, then the end
+    let exp = expected_items(a, true);
+    for (sub, sv) in &a.streams {
+        if sv.opened.is_none() || sv.dropped.is_some() {
+            continue;
+        }
+        if sv.ended.is_none() && !a.live_at_end.contains(&TaskRef::Consumer(*sub)) {
+            continue;
+        }
+        if let Some(e) = sv.ended {
+            if e < gone {
+                out.push(v("C14", "C14/stream-ended-early", format!("stream {sub} ended at {e} before the context was gone")));
+            }
+        }
+        // every message whose acknowledgement the context wrote must have been kept
+        if let Some(want) = exp.get(sub) {
+            for (iidx, msg, _) in want {
+                let inb = &a.inbound[*iidx];
+                let Some(Packet::Publish(p)) = &inb.p.pkt else { continue };
+                if p.qos == 0 {
+                    continue;
+                }
+                let kind = if p.qos == 1 { Kind::Puback } else { Kind::Pubrec };
+                let acked = a.wire.iter().any(|w| w.conn == inb.p.conn && w.pkt.kind() == kind && w.pkt.pid() == p.pid && inb.avail_seq.map(|s| s < w.seq_first).unwrap_or(false));
+                let registered_in_time = a.request_of(*sub).iter().any(|r| inb.avail_seq.map(|s| r.seq_last < s).unwrap_or(false));
+                if acked && registered_in_time && !sv.items.iter().any(|it| it.1.topic == msg.topic && it.1.payload == msg.payload) {
+                    out.push(v("C14", "C14/stream-lost-items", format!("stream {sub}: message {} was acknowledged but never yielded", msg.topic)));
+                }
+            }
+        }
+    }
+    let mut items = streams_check(a, "C14");
+    items.retain(|x| !x.class.contains("early-end"));
+    for mut x in items {
+        x.class = format!("C14/stream-items/{}", x.class.trim_start_matches("C14/"));
+        out.push(x);
+    }
+    out
+}
+
+// ---------------------------------------------------------------------------------------
+// C15 — cancellation
+
+pub fn c15(a: &Analysis, probe_from: Option<usize>) -> Vec<Violation> {
+    let mut out = Vec::new();
+    // run() must keep serving
+    for (c, conn) in a.conns.iter().enumerate() {
+        if let Some((seq, res)) = &conn.run_returned {
+            // which cancellation does it follow?
+            let mut best: Option<(&OpView, &'static str)> = None;
+            for op in a.ops.values() {
+                if let Some(cs) = op.cancelled {
+                    if cs < *seq {
+                        let phase = op_phase(a, op, cs);
+                        if best.map(|b| b.0.cancelled.unwrap() < cs).unwrap_or(true) {
+                            best = Some((op, phase));
+                        }
+                    }
+                }
+            }
+            let point = match best {
+                Some((op, ph)) => format!("{}/{}", op.spec.kind_name(), ph),
+                None => {
+                    if a.streams.values().any(|s| s.dropped.map(|d| d < *seq).unwrap_or(false)) {
+                        "stream-dropped".to_string()
+                    } else {
+                        "no-cancellation".to_string()
+                    }
+                }
+            };
+            out.push(v("C15", format!("C15/run-returned/{point}"), format!("connection {c}: run() returned {:?} at {seq}", res.as_ref().map_err(|e| (&e.variant, &e.text)))));
+        }
+    }
+    if a.run_returned() {
+        return out;
+    }
+    for mut x in c05(a) {
+        x.property = "C15";
+        x.class = format!("C15/survivor-disturbed/{}", x.class.trim_start_matches("C05/"));
+        out.push(x);
+    }
+    for mut x in streams_check(a, "C15") {
+        x.class = format!("C15/survivor-disturbed/{}", x.class.trim_start_matches("C15/"));
+        out.push(x);
+    }
+    for mut x in c10(a, probe_from) {
+        if x.class.starts_with("C10/leak") || x.class.starts_with("C10/overflow") {
+            x.property = "C15";
+            x.class = format!("C15/slot-not-freed/{}", x.class.trim_start_matches("C10/"));
+            out.push(x);
         }
     }
     out
